@@ -252,7 +252,8 @@ func mashDrive(args []string) error {
 			large := sid == 12 // every run: a sequence beyond 2^16 bases after a short one in the same call
 			if large {
 				k, nseq = 21, 0
-				seqs = append(seqs, randSeq(40+r.Intn(40)), randSeq(1<<16+500+r.Intn(500)))
+				// (the long one has exactly 2^16 + k bases: one k-mer beyond what 2^16 windows hold)
+				seqs = append(seqs, randSeq(40+r.Intn(40)), randSeq(1<<16+k))
 			}
 			if huge {
 				k = []int{21, 31}[sid%2]
